@@ -220,6 +220,11 @@ pub fn draw_line<T: Copy>(mut image: NdTensorViewMut<T, 2>, line: Line, value: T
             .map(|c| Point::from_yx(c.y as i32, c.x as i32));
 
         for p in Polygon::new(corners).fill_iter() {
+            // Skip points to the left of or above the image. `Point::coord`
+            // panics for negative coordinates.
+            if p.x < 0 || p.y < 0 {
+                continue;
+            }
             if let Some(img_val) = image.get_mut(p.coord()) {
                 *img_val = value;
             }
